@@ -237,7 +237,11 @@ class PD:
                         row[kk] = v
                     else:
                         raise Unsupported("DataFrame(dict) with mixed generic/concrete columns")
-                return GFrame(list(data.keys()), row, sp if sp.is_range else _mk_range(sp), gs[0].present)
+                # pandas takes the index of the new table from a Series among the columns (arrays are placed positionally); arrays alone give 0..n-1
+                ser = [v for v in gs if getattr(v, "kind", None) == "series" and not v.space.is_range]
+                if ser and any(v.space.label_id != ser[0].space.label_id for v in ser):
+                    raise Unsupported("DataFrame from Series with different labels (alignment)")
+                return GFrame(list(data.keys()), row, ser[0].space if ser else (sp if sp.is_range else _mk_range(sp)), gs[0].present)
         if isinstance(data, RowArr) and columns is not None:
             cols = list(columns)
             if len(cols) != data.k:
